@@ -1740,3 +1740,229 @@ fn string_escape_cases(f: &mut dyn FnMut(Case)) {
         }
     }
 }
+
+// ---- (p) file I/O: the io module and every File method on files in the worker's own scratch directory.
+//          A case whose text starts with `#!io` runs with the real io module, an in-memory stdin
+//          (`verif_stdin`), `verif_scratch` and `verif_write(path, bytes)`; every path that is written
+//          to is built from `verif_scratch` ------------------------------------------------------------------
+
+const IO_PRE: &str = "#!io\np = io.extend_path verif_scratch, 'f.txt'\n";
+
+fn file_io_cases(thorough: bool, f: &mut dyn FnMut(Case)) {
+    let mut emit = |api: &str, body: String| f(Case { kind: 'R', text: format!("{}{}", IO_PRE, body), group: "file-io", apis: vec![api.to_string(), "gen:file-io".to_string()] });
+    // contents: lines over the multi-byte alphabet × line ends (none / \n / \r\n / \r / doubled / reversed)
+    let pieces = ["", "a", "abc", "\u{e9}", "h\u{e9}", "\u{65e5}\u{672c}", "\u{1f44b}", "e\u{301}", "\u{feff}", "\u{2028}x", " ", "\\t", "\\x00", "x\\x7f"];
+    let ends = ["", "\\n", "\\r\\n", "\\r", "\\n\\n", "\\r\\n\\r\\n", "\\n\\r"];
+    let mut single: Vec<String> = vec![];
+    for p in pieces {
+        for e in ends {
+            single.push(format!("{}{}", p, e));
+        }
+    }
+    let mut double: Vec<String> = vec![];
+    let firsts: &[&str] = if thorough { &pieces } else { &["", "abc", "\u{e9}", "\u{65e5}\u{672c}", "\u{1f44b}", "e\u{301}"] };
+    for a in firsts {
+        for sep in ["\\n", "\\r\\n", "\\r"] {
+            for (i, s) in single.iter().enumerate() {
+                if thorough || i % 2 == 0 || s.ends_with("\u{e9}") || s.ends_with("\u{1f44b}") {
+                    double.push(format!("{}{}{}", a, sep, s));
+                }
+            }
+        }
+    }
+    let write = |content: &str| format!("f = io.create p\nf.write '{}'\nf.flush()\n", content);
+    let five = "(g.read_line(), g.read_line(), g.read_line(), g.read_line(), g.read_line())";
+    for c in single.iter().chain(double.iter()) {
+        let w = write(c);
+        emit("File.read_line", format!("{}g = io.open p\n{}\n", w, five));
+        emit("File.read_line", format!("{}g = io.open p\nr = []\nloop\n  l = g.read_line()\n  if l == null\n    break\n  r.push l\n  if size(r) > 20\n    break\nr\n", w));
+        emit("File.read_to_string", format!("{}g = io.open p\n(g.read_to_string(), g.read_to_string(), g.read_line())\n", w));
+        emit("io.read_to_string", format!("{}io.read_to_string p\n", w));
+        emit("File.read_line", format!("{}g = io.open p\ng.read_line()\ng.seek 1\n(g.read_line(), g.read_to_string())\n", w));
+        emit("File.read_line", format!("{}(f.read_line(), f.read_to_string())\n", w));
+        emit("File.write", format!("{}g = io.open p\ng.write 'x'\ng.flush()\n", w));
+        emit("File.read_line", format!("{}f.write_line '\u{e9}'\nf.write_line()\nf.flush()\ng = io.open p\n{}\n", w, five));
+        // the same contents through an in-memory stdin (File::read_line over another KotoFile)
+        emit("File.read_line", format!("verif_stdin '{}'\ng = io.stdin\n{}\n", c, five));
+        emit("File.read_to_string", format!("verif_stdin '{}'\ng = io.stdin\n(g.read_line(), g.read_to_string(), g.read_line())\n", c));
+    }
+    // seek: every position incl. inside a character, at / beyond the end, huge, fractional, non-finite
+    let seeks = [
+        "0", "1", "2", "3", "4", "5", "6", "7", "100", "4294967296", "9223372036854775807", "1e19", "18446744073709551615.0", "1.8446744073709552e19", "1e30", "0.5", "-0.0", "-1", "(-9223372036854775807 - 1)",
+        "number.nan", "number.infinity", "number.negative_infinity",
+    ];
+    for (i, c) in single.iter().chain(double.iter()).enumerate() {
+        if !thorough && i % 4 != 0 && i >= single.len() {
+            continue;
+        }
+        let w = write(c);
+        for k in seeks {
+            emit("File.seek", format!("{}g = io.open p\ng.seek {}\n(g.read_line(), g.read_line())\n", w, k));
+            emit("File.seek", format!("{}g = io.open p\ng.read_line()\ng.seek {}\ng.read_to_string()\n", w, k));
+            // (a write beyond the end makes a sparse file: only what was written there is read back)
+            emit("File.seek", format!("{}f.seek {}\nf.write 'z\u{e9}'\nf.flush()\ng = io.open p\ng.seek {}\n(g.read_line(), g.read_to_string())\n", w, k, k));
+        }
+    }
+    // raw bytes: contents that are not UTF-8, characters cut by the end of the file / by a line end
+    let raw: &[&[u8]] = &[
+        &[0xC3], &[0x68, 0xC3], &[0xC3, 0x0A], &[0xE6, 0x97], &[0xF0, 0x9F, 0x91], &[0xFF], &[0x80], &[0x0A, 0xC3, 0xA9], &[0], &[0x61, 0, 0x0A], &[0xEF, 0xBB, 0xBF], &[0x0D], &[0x0D, 0x0A], &[0x0A, 0x0D],
+        &[0x61, 0x0A, 0xC3], &[0x61, 0x0D, 0x0A, 0xF0, 0x9F], &[0xED, 0xA0, 0x80], &[0xC0, 0x80], &[0xF4, 0x90, 0x80, 0x80], &[0x61, 0xC3, 0x0A, 0xA9],
+    ];
+    for bytes in raw {
+        let lit = bytes.iter().map(|b| b.to_string()).collect::<Vec<_>>().join(", ");
+        let w = format!("verif_write p, [{}]\n", lit);
+        emit("File.read_line", format!("{}g = io.open p\n{}\n", w, five));
+        emit("File.read_to_string", format!("{}g = io.open p\ng.read_to_string()\n", w));
+        emit("io.read_to_string", format!("{}io.read_to_string p\n", w));
+        for k in ["1", "2", "3"] {
+            emit("File.seek", format!("{}g = io.open p\ng.seek {}\n(g.read_line(), g.read_to_string())\n", w, k));
+        }
+    }
+    // lines around the reader's buffer size with a multi-byte character on the boundary
+    for n in [8189usize, 8190, 8191, 8192, 8193, 16383, 16384, 65535, 65536] {
+        for tail in ["\u{e9}", "\u{65e5}", "\u{1f44b}", "\u{e9}\\n", "\u{1f44b}\\r\\n", "\\r", "\\r\\n\u{e9}"] {
+            emit("File.read_line", format!("f = io.create p\nf.write('a'.repeat({}) + '{}')\nf.flush()\ng = io.open p\nr = (g.read_line(), g.read_line(), g.read_line())\nsize r[0]\n", n, tail));
+            emit("File.seek", format!("f = io.create p\nf.write('a'.repeat({}) + '{}')\nf.flush()\ng = io.open p\ng.seek {}\nr = (g.read_line(), g.read_to_string())\nsize r[1]\n", n, tail, n + 1));
+        }
+    }
+    // every File method × small argument pool × every kind of file
+    let files = [("f", "f = io.create p\nf.write 'h\u{e9}\\nx'\n"), ("g", "f = io.create p\nf.write 'h\u{e9}\\nx'\nf.flush()\ng = io.open p\n"), ("io.stdin", "verif_stdin 'h\u{e9}'\n"), ("io.stdout", ""), ("io.stderr", ""), ("d", "d = io.open verif_scratch\n")];
+    let methods = ["flush", "is_terminal", "path", "read_line", "read_to_string", "seek", "write", "write_line"];
+    let args = ["", "0", "'x'", "null", "[1]", "-1", "1e30", "'\u{e9}', 1", "f", "number.nan", "(1, 2)", "{a: 1}", "|| 1", "'\\x00'", "cy", "ob"];
+    for (name, pre) in files {
+        for m in methods {
+            for a in args {
+                emit(&format!("File.{}", m), format!("cy = [1]\ncy.push cy\nob = {{@display: || throw 'no'}}\nf = null\n{}r = {}.{}({})\n(r, {}.{}({}))\n", pre, name, m, a, name, m, a));
+            }
+        }
+        for op in ["'{X}'", "koto.copy X", "koto.deep_copy X", "X == X", "X != f", "koto.hash X", "koto.type X", "size X", "X.foo", "for x in X\n  x", "X[0]", "X + 1", "{(X): 1}", "[X, X].sort()", "X()", "X.path().to_tuple()", "debug X"] {
+            emit("File.@ops", format!("f = null\n{}{}\n", pre, op.replace('X', name)));
+        }
+    }
+    // io.* on names inside the scratch directory (existing, missing, multi-byte, empty, blank, long, nested, NUL)
+    let names = ["'f.txt'", "'missing.txt'", "'\u{e9}\u{65e5}\u{1f44b}.txt'", "''", "' '", "'x'.repeat(300)", "'x'.repeat(5000)", "'sub/f.txt'", "'f.txt/'", "'f.txt/x'", "'.'", "'a\\x00b'", "'e\u{301}'", "'\\n'"];
+    for n in names {
+        let q = format!("f = io.create p\nf.write 'h\u{e9}'\nf.flush()\nq = io.extend_path verif_scratch, {}\n", n);
+        for func in ["create", "open", "exists", "read_to_string", "remove_file"] {
+            emit(&format!("io.{}", func), format!("{}r = io.{}(q)\n(r, io.exists(q), io.{}(q))\n", q, func, func));
+        }
+        emit("io.create", format!("{}h = io.create q\nh.write_line '\u{e9}'\nh.flush()\nk = io.open q\n(k.read_line(), k.path(), io.remove_file(q), k.read_line(), h.write('x'), h.flush(), io.exists(q))\n", q));
+        emit("io.create", format!("{}h = io.create q\nh.write 'abc'\nh2 = io.create q\nh.flush()\nh2.write '\u{e9}'\nh2.flush()\nio.read_to_string q\n", q));
+        emit("io.remove_file", format!("{}g = io.open p\nio.remove_file p\n(g.read_line(), io.remove_file(p), io.exists(p))\n", q));
+    }
+    // the read-only / pure functions × the whole value pool (relative names are only read, never written)
+    let all = all_items();
+    for func in ["extend_path", "print", "exists", "open", "read_to_string", "current_dir", "temp_dir", "create", "remove_file"] {
+        let writes = matches!(func, "create" | "remove_file");
+        emit(&format!("io.{}", func), format!("io.{}()\n", func));
+        for a in &all {
+            if writes && a.ty == Ty::Str {
+                continue; // a relative name would be created / removed in the working directory
+            }
+            let text = script_for(&[a], &format!("io.{}({})", func, a.expr));
+            emit(&format!("io.{}", func), text);
+            if matches!(func, "extend_path" | "print") {
+                for b in all.iter().filter(|b| b.reduced || thorough) {
+                    emit(&format!("io.{}", func), script_for(&[a, b], &format!("io.{}(verif_scratch, {}, {})", func, a.expr, b.expr)));
+                }
+            }
+        }
+    }
+}
+
+// ---- (q) size / count / index arguments: every entry point, on small FINITE receivers, with a huge /
+//          negative / non-finite number in every argument position. The allocation exclusion is stated
+//          per case: only a call whose RESULT must hold that many elements carries the tag
+//          `excluded:allocation-request` (list.resize / list.resize_with to a huge size, string.repeat of a
+//          non-empty string a huge number of times); for every other case a `capacity overflow` panic or
+//          an allocation abort is a VIOLATION (a reservation for a size that is never reached) -------------
+
+const ALLOC_EXCLUDED: &str = "excluded:allocation-request";
+
+fn size_argument_cases(eps: &[(String, String)], thorough: bool, f: &mut dyn FnMut(Case)) {
+    let huge_all = [
+        "9223372036854775807", "9223372036854775806", "1152921504606846976", "9007199254740993", "4294967297", "4294967296", "4294967295", "2147483648", "2147483647", "1000001", "1e30", "1e19",
+        "1.8446744073709552e19", "number.infinity", "-1", "(-9223372036854775807 - 1)", "-1e30", "number.negative_infinity", "number.nan", "0.5",
+    ];
+    let huge_quick = ["9223372036854775807", "1152921504606846976", "4294967297", "4294967295", "2147483648", "1e30", "number.infinity", "-1", "number.nan", "(-9223372036854775807 - 1)"];
+    let huge: &[&str] = if thorough { &huge_all } else { &huge_quick };
+    // (module whose functions apply, receiver expression, preamble, receiver is an empty string)
+    let receivers: &[(&[&str], &str, &str)] = &[
+        (&["list", "iterator"], "l", "l = [1, 2, 3]\n"),
+        (&["tuple", "iterator"], "(1, 2, 3)", ""),
+        (&["string", "iterator"], "'a\u{e9}\u{65e5}'", ""),
+        (&["string", "iterator"], "''", ""),
+        (&["range", "iterator"], "(0..5)", ""),
+        (&["map", "iterator"], "m", "m = {a: 1, b: 2}\n"),
+        (&["iterator"], "(0..5).iter()", ""),
+        (&["iterator"], "gs()", "gs = ||\n  yield 1\n  yield 2\n  yield 3\n"),
+        (&["iterator"], "(1..=3).each(|x| x).peekable()", ""),
+        (&["iterator"], "[]", ""),
+        (&["number"], "7", ""),
+    ];
+    let is_big = |h: &str| !(h.starts_with('-') || h.starts_with("(-") || h == "number.nan" || h == "0.5" || h == "number.negative_infinity");
+    let consumers = ["", ".to_tuple()", ".to_list()", ".count()", ".last()", ".to_string()", ".reversed().to_tuple()", ".min_max()", ".next_back()"];
+    for (modules, recv, pre) in receivers {
+        for (module, name) in eps {
+            if !modules.contains(&module.as_str()) {
+                continue;
+            }
+            // no receiver-less sources of the requested length here (see below), nothing that runs scripts
+            if matches!((module.as_str(), name.as_str()), ("iterator", "repeat") | ("iterator", "generate") | ("iterator", "once")) {
+                continue;
+            }
+            for h in huge {
+                let layouts = [
+                    format!("{}", h), format!("{}, 0", h), format!("0, {}", h), format!("{}, {}", h, h), format!("{}, |x| x", h), format!("|x| true, {}", h), format!("{}, 'a'", h), format!("'a', {}", h),
+                    format!("0, 0, {}", h), format!("{}, {}, {}", h, h, h),
+                ];
+                for (li, args) in layouts.iter().enumerate() {
+                    if !thorough && li >= 4 && (li + name.len()) % 2 == 0 {
+                        continue;
+                    }
+                    // result must hold that many elements: the size is the first argument
+                    let size_first = li != 2 && li != 5 && li != 7 && li != 8;
+                    let excluded = is_big(h)
+                        && size_first
+                        && (matches!((module.as_str(), name.as_str()), ("list", "resize") | ("list", "resize_with")) || (module == "string" && name == "repeat" && *recv != "''"));
+                    let mut apis = vec![format!("{}.{}", module, name), "gen:size-argument".to_string()];
+                    if excluded {
+                        apis.push(ALLOC_EXCLUDED.to_string());
+                    }
+                    // (number.step_to / range.* can return a lazily huge sequence: only pulled from, never collected)
+                    let cons: &[&str] = if excluded || module == "number" || module == "range" { &[""] } else if module == "iterator" { &consumers } else { &["", ".to_tuple()"] };
+                    for c in cons {
+                        if !thorough && !c.is_empty() && li >= 2 {
+                            continue;
+                        }
+                        let text = if c.is_empty() {
+                            format!("{}r = {}.{}({})\nif koto.type(r) == 'Iterator'\n  r = (r.next(), r.next_back(), r.take(3).to_tuple())\nr\n", pre, recv, name, args)
+                        } else {
+                            format!("{}r = {}.{}({})\nif koto.type(r) == 'Iterator'\n  r = r{}\nr\n", pre, recv, name, args, c)
+                        };
+                        f(Case { kind: 'R', text, group: "size-argument", apis: apis.clone() });
+                    }
+                }
+            }
+        }
+    }
+    // sources whose length IS the argument: lazy, so creating them, pulling from either end, skipping,
+    // stepping, chunking and taking a few values must work; collecting all of them is the excluded case
+    // (never generated: it also never terminates)
+    for h in huge {
+        for src in [format!("iterator.repeat(1, {})", h), format!("iterator.repeat('a\u{e9}', {})", h), format!("iterator.generate({}, || 1)", h), format!("iterator.generate({}, |x| x)", h), format!("iterator.once({})", h)] {
+            let api = vec![format!("iterator.{}", &src["iterator.".len()..src.find('(').unwrap_or(src.len())]), "gen:size-argument".to_string()];
+            // (adaptor arguments stay small here: skipping / stepping / chunking BY a huge amount over a
+            // source of huge length is a native loop that never ends — huge adaptor arguments are applied
+            // to the finite receivers above)
+            for tail in [
+                "", ".next()", ".next_back()", ".take(3).to_tuple()", ".skip(2).next()", ".step(2).take(2).to_list()", ".chunks(2).next()", ".windows(2).next()", ".enumerate().next()", ".zip(1..3).to_tuple()",
+                ".peekable().peek()", ".reversed().next()", ".chain(1..3).next()", ".intersperse(0).take(3).to_tuple()", ".each(|x| x).next()", ".keep(|x| true).next()", ".cycle().take(3).to_tuple()",
+                ".take(3).to_string()", ".take(3).to_map()", ".find(|x| true)", ".any(|x| true)", ".position(|x| true)", ".flatten().take(2).to_tuple()", ".take(H).next()", ".take(H).next_back()",
+                ".enumerate().take(H).next()", ".take(H).peekable().peek()", ".take(H).zip(1..3).to_tuple()",
+            ] {
+                f(Case { kind: 'R', text: format!("r = {}{}\nr\n", src, tail.replace('H', h)), group: "size-argument", apis: api.clone() });
+            }
+        }
+    }
+}
